@@ -54,8 +54,8 @@ SPEC = dict(
     props_module="Refinery.Props.C38",
     gen_module="Refinery.Gen.Convert",
     custom=custom,
-    quick=dict(cases=96, len=40, shards=8, timeout=600),
-    thorough=dict(cases=4800, len=60, shards=16, timeout=2400),
+    quick=dict(cases=40, len=40, shards=8, timeout=600),
+    thorough=dict(cases=2400, len=60, shards=16, timeout=2400),
     nontrivial=nontrivial,
     rule="cases = generated valid v1 files: config files (TOML or YAML) over the old keys of the conversion table "
          "regenerated from templates/configV2.tmpl (values drawn per field type and filtered through the real v2 "
